@@ -311,8 +311,24 @@ func Lattice(t *Type, lv Level) []*Value {
 		}
 	case t.Kind == KStruct:
 		out = append(out, Zero(t), NonDefault(t))
+		// every member with a declared default at the zero value of its type instead (0 where the IDL says
+		// "= 3"): the value a writer that elides "zero" members and a reader that presets defaults disagree on
+		if z := typeZero(t); KeyString(t, z) != KeyString(t, out[0]) {
+			out = append(out, z)
+		}
 	}
 	return out
+}
+
+// typeZero: a struct value whose members are the zero values of their types, declared defaults ignored.
+func typeZero(t *Type) *Value {
+	v := Zero(t)
+	for i, m := range t.Struct.Members {
+		if m.Default != nil {
+			v.Elems[i] = Zero(m.Type)
+		}
+	}
+	return v
 }
 
 func distinctKeys(t *Type, vs []*Value) []*Value {
